@@ -11,6 +11,7 @@ import (
 	"github.com/orda-io/orda/client/pkg/model"
 	"go.mongodb.org/mongo-driver/bson"
 	"pgregory.net/rapid"
+	"verif/cluster"
 	"verif/fakemongo"
 	"verif/sim"
 	"verif/stats"
@@ -28,16 +29,32 @@ type c12Round struct {
 	Rev []bool `json:"reversed,omitempty"` // per listed client: its packs are sent in reverse order (real clients list their datatypes in map order)
 }
 
-func TestC12(t *testing.T) {
+func TestC12(t *testing.T) { testC12(t, false) }
+
+// TestC12Redis: the same workloads on a deployment whose per-datatype locks are the distributed
+// (Redis / redsync) ones: one server instance, or two or three instances on the same database,
+// broker and Redis, the concurrent requests being spread over the instances.
+func TestC12Redis(t *testing.T) { testC12(t, true) }
+
+func testC12(t *testing.T, redisMode bool) {
 	col := stats.New("C12", t.Name(),
 		"generated WORKLOADS against the real server: after a warm-up (prelude: 2-6 clients subscribed to 1-2 shared keys, so the lock objects already exist and their creators' request contexts are cancelled) rounds in which 2-6 clients first issue local operations and then ALL send their push-pull (one message with one pack per datatype of the client, the packs in listed or reversed order) at the same moment from separate goroutines "+
 			"(each call with its own request context, cancelled on return), optionally together with a REST patch, a client registration and a request that has to be refused (a new client tries to create an existing key); per-command database latencies of 0-2 ms are drawn as perturbation; after each round the responses are applied; "+
 			"oracle: every call returns within its deadline, the process survives, after every round the stored-log invariants hold (gapless, exactly once, per-client order - i.e. the result equals some one-at-a-time order), at the end everybody converges to refmodel(log); "+
 			"with the -race binary (thorough tier and quick) no DATA RACE report may name server code on both sides (checked by the driver on the process output); "+
 			"non-trivial = in some round >=2 handlers of the same key overlapped in time at the database (their command intervals intersect); distinct = hash of the workload (schedules are sampled)")
-	col.Assume("Redis is absent (local locks, as the server supports); interleavings inside a handler between two database commands are not controlled")
+	if redisMode {
+		col.Assume("Redis is replaced by an in-process RESP stand-in that implements SET NX PX, GET, DEL, PEXPIRE and the two redsync scripts (release, extend); the lock library and its Redis client are the real ones; a contended lock is polled by redsync every 50-250 ms, so these cases are slower and fewer; interleavings inside a handler between two database commands are not controlled")
+	} else {
+		col.Assume("Redis is absent (local locks, as the server supports; TestC12Redis covers the distributed lock); interleavings inside a handler between two database commands are not controlled")
+	}
 	checkProp(t, "C12", col, func(c *caseCtx) {
 		rt := c.rt
+		instances := 1
+		if redisMode {
+			instances = rapid.IntRange(1, 3).Draw(rt, "server_instances")
+			l1Deploy = cluster.Options{Redis: true, Instances: instances}
+		}
 		nk := rapid.IntRange(1, 3).Draw(rt, "keys")
 		var kinds []sim.Kind
 		for i := 0; i < nk; i++ {
@@ -52,6 +69,10 @@ func TestC12(t *testing.T) {
 		w.noConverge = true
 		var canon strings.Builder
 		maxClients := 6
+		if redisMode {
+			maxClients = 4
+			canon.WriteString(fmt.Sprintf("instances=%d;", instances))
+		}
 		for i, a := range genPrelude(rt, w, maxClients) {
 			c.j.add(a)
 			canon.WriteString(a.String() + ";")
@@ -73,7 +94,11 @@ func TestC12(t *testing.T) {
 			})
 		}
 		overlapped, multiPackOpposite, refusedSent := false, false, false
-		rounds := rapid.IntRange(1, 6).Draw(rt, "rounds")
+		maxRounds := 6
+		if redisMode {
+			maxRounds = 3
+		}
+		rounds := rapid.IntRange(1, maxRounds).Draw(rt, "rounds")
 		docKey := ""
 		for _, k := range w.keys {
 			if k.Kind == sim.Document && k.created {
@@ -234,10 +259,28 @@ func TestC12(t *testing.T) {
 		if err := w.applyL1(l1Action{K: "settle"}); err != nil {
 			c.failf("final settle: %v", err)
 		}
-		if u := w.env.Mongo.UnknownCommands(); len(u) > 0 {
-			c.failf("HARNESS-ERROR: unknown commands %v", u)
+		if err := w.infraProblem(); err != nil {
+			c.failf("%v", err)
 		}
 		var labels []string
+		if redisMode {
+			labels = append(labels, fmt.Sprintf("server-instances=%d", instances))
+			contended := 0
+			for _, rc := range w.env.Redis.CommandLog() {
+				if rc.Name == "SET" && rc.Result == "nil" {
+					contended++
+				}
+			}
+			if contended > 0 {
+				labels = append(labels, "redis-lock-was-contended")
+			}
+			// every request has returned and the background work is done: no lock may be left behind
+			// (it would refuse or delay the next request for that datatype until it expires)
+			w.env.WaitBackground(5 * time.Second)
+			if left := w.env.Redis.Keys(); len(left) > 0 {
+				c.failf("all requests have been answered and the background work has finished, but these locks are still held in Redis: %v", left)
+			}
+		}
 		if multiPackOpposite {
 			labels = append(labels, "multi-pack-requests-in-opposite-orders")
 		}
@@ -248,7 +291,7 @@ func TestC12(t *testing.T) {
 			labels = append(labels, "same-key-handlers-overlapped")
 		}
 		col.Case(overlapped, canon.String(), labels, func() interface{} {
-			return map[string]interface{}{"kinds": kinds, "workload": canon.String(), "latency_max_us": maxLat}
+			return map[string]interface{}{"kinds": kinds, "workload": canon.String(), "latency_max_us": maxLat, "server_instances": instances}
 		})
 	})
 }
@@ -281,19 +324,27 @@ func c12Overlap(w *l1World) bool {
 // TestC12Independence: a request for key B completes while a request for key A is stuck in the database.
 func TestC12Independence(t *testing.T) {
 	col := stats.New("C12", t.Name(),
-		"two keys with one client each (drawn kinds); the gate of the fake MongoDB holds every command that mentions the datatype id of key A; a sync of A is started (it blocks inside the server holding A's lock), then syncs of B, a registration and (for documents) a patch of B must all complete while A is still held; then A is released and must complete too; "+
+		"two keys with one client each (drawn kinds), on a drawn deployment (local locks / Redis lock on one server instance / Redis lock on two instances); the gate of the fake MongoDB holds every command that mentions the datatype id of key A; a sync of A is started (it blocks inside the server holding A's lock), then syncs of B, a registration and (for documents) a patch of B must all complete while A is still held; then A is released and must complete too; "+
 			"oracle: B's calls return within the deadline while A is pending, A returns after the release, log invariants, B's partition unaffected by A; non-trivial = A was really held when B completed; distinct = kinds and seeds")
 	checkProp(t, "C12", col, func(c *caseCtx) {
 		rt := c.rt
 		kinds := []sim.Kind{kindFromDraw(rt), kindFromDraw(rt)}
 		idseed := rapid.Uint64Range(1, 1<<40).Draw(rt, "idseed")
+		// a third of the cases each: local locks, the Redis lock on one instance, the Redis lock on two instances
+		dep := "deployment=one-instance+local-lock"
+		switch rapid.IntRange(0, 2).Draw(rt, "deployment") {
+		case 1:
+			l1Deploy, dep = cluster.Options{Redis: true}, "deployment=one-instance+redis-lock"
+		case 2:
+			l1Deploy, dep = cluster.Options{Redis: true, Instances: 2}, "deployment=two-instances+redis-lock"
+		}
 		w, err := newL1World(idseed, kinds)
 		if err != nil {
 			c.failf("HARNESS-ERROR: %v", err)
 		}
 		defer w.close()
 		defer w.env.Mongo.DisableGate()
-		c.j.Header = map[string]interface{}{"kinds": kinds, "id_seed": idseed}
+		c.j.Header = map[string]interface{}{"kinds": kinds, "id_seed": idseed, "deployment": dep}
 		var cls [2]*l1Client
 		for i := 0; i < 2; i++ {
 			cl, err := w.addClient()
@@ -364,7 +415,10 @@ func TestC12Independence(t *testing.T) {
 		if err := w.applyL1(l1Action{K: "settle"}); err != nil {
 			c.failf("final settle: %v", err)
 		}
-		col.Case(held, fmt.Sprint(kinds, idseed, n), []string{fmt.Sprintf("A-held=%v", held)}, func() interface{} { return c.j.Header })
+		if err := w.infraProblem(); err != nil {
+			c.failf("%v", err)
+		}
+		col.Case(held, fmt.Sprint(kinds, idseed, n, dep), []string{fmt.Sprintf("A-held=%v", held), dep}, func() interface{} { return c.j.Header })
 	})
 }
 
